@@ -393,6 +393,7 @@ type GenOpts struct {
 	Accounts    []string
 	Unicode     bool
 	DensePrices bool // many price-change days (revaluation on most days)
+	AltQuotes   bool // the security is quoted sometimes in USD, sometimes in CHF (edges appear between known commodities later)
 }
 
 var friendly = []int{5000, 20000, 40000, 2500, 50000, 2000, 12500, 8000, 100000, 1000, 25000, 4000, 10000}
@@ -400,6 +401,7 @@ var friendly = []int{5000, 20000, 40000, 2500, 50000, 2000, 12500, 8000, 100000,
 var DefaultAccounts = []string{
 	"Assets:Bank:Checking", "Assets:Bank:Savings", "Assets:Bank", "Assets:Portfolio", "Liabilities:Card", "Liabilities:Loan:Car", "Expenses:Food",
 	"Equity:Equity", "Income:Salary", "Income:Gifts:Family", "Expenses:Rent", "Expenses:Food:Groceries", "Expenses:Food:Dining",
+	"Expenses:Trips:Rome:Hotel", "Assets:Bank:CH:Main:Sub",
 }
 
 // Random builds a well-formed journal (every used account opened before use, no closes
@@ -456,7 +458,11 @@ func Random(rng *rand.Rand, o GenOpts, base int) *Journal {
 						j.Dirs = append(j.Dirs, Dir{K: "price", Z: z, C: "CHF", P: p, T: "USD"})
 					}
 				case "AAPL":
-					j.Dirs = append(j.Dirs, Dir{K: "price", Z: z, C: "AAPL", P: p, T: aaplT})
+					t := aaplT
+					if o.AltQuotes && z != base-3 && rng.Intn(2) == 0 {
+						t = map[string]string{"USD": "CHF", "CHF": "USD"}[aaplT]
+					}
+					j.Dirs = append(j.Dirs, Dir{K: "price", Z: z, C: "AAPL", P: p, T: t})
 				}
 			}
 		}
